@@ -24,6 +24,8 @@ for d in sorted(glob.glob(V + '/seeded/*/')):
     if i in res:
         caught = [p for p, rc, *_ in res[i] if rc == 1]
         meta['caught_by'] = sorted(set(meta.get('caught_by', [])) | set(caught)) if caught else meta.get('caught_by', [])
+        if caught and str(meta.get('status', '')).startswith('MISSED'):
+            del meta['status']
         for p, rc, seed, oracle, msg in res[i]:
             if rc == 1:
                 meta['oracle'] = '%s: %s' % (oracle, msg[:140])
